@@ -32,6 +32,10 @@ func init() {
 		run := evid.NewRun("C08", tier)
 		mc := modelCheck("MC_Session", "MC_Session.cfg", 16)
 		gs := dumpEdges("MC_Session", "Dump_Session.cfg")
+		emc := modelCheck("MC_Err", "MC_Err.cfg", 16)
+		mc.Distinct += emc.Distinct
+		mc.Generated += emc.Generated
+		gs = append(gs, dumpEdges("MC_Err", "Dump_Err.cfg")...)
 		// spec -> code: every edge that ends the connection (QUIT, 4th error,
 		// over-long line, panic, peer EOF, cuts), each with commands already
 		// pipelined behind it, and every edge that involves a Logout
